@@ -3,7 +3,7 @@ From Galene Require Import Model.Signal Model.Whip Proofs.SignalFrame.
 Import ListNotations.
 Open Scope string_scope.
 
-(* an ingest session exists only if the credentials were admitted with
+(* an ingest session exists only if the credentials were let in with
    `present`; every refusal leaves no session behind *)
 Lemma whip_create_needs_present : forall st g tok adm sdp id st' s,
   whip_create st g tok adm sdp id = (st', s) ->
@@ -47,7 +47,7 @@ Proof.
 Qed.
 
 (* what the code does NOT guarantee: a session created without bearer token
-   (a group that admits user "whip" with an empty password) is served
+   (a group that lets in user "whip" with an empty password) is served
    whatever token a later request carries; only the unguessable id protects it *)
 Lemma whip_tokenless_session_open : forall st g id bearer sess,
   find_session st g id = Some sess -> ws_token sess = "" ->
